@@ -57,8 +57,12 @@ func injectionHooks(s *Sim, b *Block, onOK func(pos int, typ int32), onPanic fun
 				run(0)
 			}
 		},
-		BeforeTx:    func(i int) { run(i) },
-		AfterTx:     func(i int, r TxResult) { if i == n-1 { run(n) } },
+		BeforeTx: func(i int) { run(i) },
+		AfterTx: func(i int, r TxResult) {
+			if i == n-1 {
+				run(n)
+			}
+		},
 		AfterEnd:    func() { run(n + 1) },
 		AfterCommit: func() { run(n + 2) },
 	}
